@@ -13,7 +13,8 @@ from gambatools.notebook_chomsky import cfg_apply_chomsky
 ASSUMPTIONS = [
     "terminals are lower-case letters; variables upper-case letters or identifiers such as A0, S', q1'q2",
     "languages are compared on all words up to length L (4 for two terminals, 6 for one) with the reference on both sides (CFG equivalence is undecidable)",
-    "freshness is observed as: old variables are kept, and no old variable gains rules in the phases that only introduce helper variables",
+    "freshness is observed as: no existing variable gains rules in the phases that only introduce helper variables (a name clash would add the helper's rules to it); "
+    "dropping variables is not forbidden by the property and not reported (a dropped variable that still occurs in a rule makes the grammar invalid, which is)",
 ]
 
 
@@ -28,8 +29,6 @@ def check_result(G2, spec, what, lang_before, L):
     err = RC.valid(snap) or BC.typed_ok(G2)
     if err:
         raise Fail("invalid_grammar", "%s: %s" % (what, err))
-    if not set(spec["V"]) <= set(snap["V"]):
-        raise Fail("variables_lost", "%s: variables %r disappeared" % (what, sorted(set(spec["V"]) - set(snap["V"]))))
     if set(snap["T"]) != set(spec["T"]):
         raise Fail("terminals_changed", "%s: terminal alphabet %r -> %r" % (what, spec["T"], snap["T"]))
     after = RC.lang_upto(snap, L)
@@ -155,10 +154,12 @@ def run_phase(case):
     if err:
         raise Fail("postcondition_%d" % k, "%s: %s" % (name, err))
     if k in (1, 4, 5):
-        if old_rule_counts(snap, spec["V"]) != old_rule_counts(spec, spec["V"]):
-            raise Fail("fresh_variable_clash", "%s: an existing variable gained or lost rules (introduced variable not fresh?)" % name)
-    if k in (2, 3) and set(snap["V"]) != set(spec["V"]):
-        raise Fail("variables_changed", "%s changed the set of variables" % name)
+        after, before_counts = old_rule_counts(snap, spec["V"]), old_rule_counts(spec, spec["V"])
+        gained = [A for A in spec["V"] if after[A] > before_counts[A]]
+        if gained:
+            raise Fail("fresh_variable_clash", "%s: the existing variables %r gained rules, so an introduced variable is not distinct from them" % (name, gained))
+    if k in (2, 3) and not set(snap["V"]) <= set(spec["V"]):
+        raise Fail("variables_added", "%s introduced variables %r" % (name, sorted(set(snap["V"]) - set(spec["V"]))))
     if BC.snap_cfg(G) != before:
         raise Fail("mutates_argument", "%s changed its argument" % name)
     cls = classes(spec)
